@@ -164,11 +164,21 @@ struct RefResult
     bool step_limit = false;
 };
 
+// the documented matching loop (longest match, stop at the first byte without a transition) over a given automaton
+struct DfaLexer
+{
+    int nstates = 0;
+    std::vector<std::vector<int>> next;
+    std::vector<int> recognized;
+    LexResult match(const char* p, int64_t n) const;
+};
+
 struct Model
 {
     GrammarSpec g;
     Tables t;
     std::unique_ptr<Lexer> lexer;     // null for custom-lexer grammars
+    std::unique_ptr<DfaLexer> dfa;    // when set, terms are delimited by this automaton (the parser's own) instead
     explicit Model(const GrammarSpec& g);
 };
 
